@@ -202,16 +202,64 @@ def _run(ctx):
     rf = F.fn("Document::recursive_fix_pages")
     rec = [c for c in rf.calls if c.local and c.name == rf.path]
     # the recursive call that hands on the function's own bool parameter (`first`), wherever it stands in the list
-    bj = [i for i in range(1, rf.argc + 1) if rf.lty(i) == "bool"]
-    full = [c for c in rec if len(bj) == 1 and lib.same_origin(F, rf, c.args[bj[0] - 1], rf, bj[0])]
-    okw = len(full) == 1
+    # (the mode parameter is a bool, or a private enum without fields that says the same in words: the top-level mode is the value
+    # adjust_zero_pages starts with; the full walk hands on that mode — its own parameter, or the constant under a test for it)
+    def _fieldless(t_):
+        a_ = F.adts.get(t_)
+        return a_ is not None and a_.get("enum") and not any(v_["fields"] for v_ in a_["variants"])
+    bj = [i for i in range(1, rf.argc + 1) if rf.lty(i) == "bool" or _fieldless(rf.lty(i))]
+    az = F.fn("Document::adjust_zero_pages")
+    tops = {az.oname(c.args[bj[0] - 1], 3) for c in az.calls if c.local and c.name == rf.path} if len(bj) == 1 else set()
+    top = next(iter(tops)) if len(tops) == 1 else None
+    want_guard = None
+    if top is not None and len(bj) == 1:
+        pn = rf.lname(bj[0])
+        if rf.lty(bj[0]) == "bool":
+            want_guard = (pn, top == "1")
+        else:
+            m_ = re.match(r"^\w+::(\w+)\{\}$", top)
+            vs_ = [i_ for i_, v_ in enumerate(F.adts[rf.lty(bj[0])]["variants"]) if m_ and v_["name"] == m_.group(1)]
+            if vs_:
+                want_guard = ("discr(%s)==%d" % (pn, F.adts[rf.lty(bj[0])]["variants"][vs_[0]].get("discr", vs_[0])), True)
+    full = [c for c in rec if len(bj) == 1 and (lib.same_origin(F, rf, c.args[bj[0] - 1], rf, bj[0]) or (top is not None and rf.oname(c.args[bj[0] - 1], 3) == top))]
+    okw = len(full) == 1 and want_guard is not None
     if okw:
         gs = inv.rendered_guards(rf, full[0].bb)
-        okw = not any(re.search(r"\bpage\b|objectid", g) for g, tr in gs) and any(g == "first" and tr for g, tr in gs)
+        okw = not any(re.search(r"\bpage\b|objectid", g) for g, tr in gs) and any(g == want_guard[0] and tr == want_guard[1] for g, tr in gs)
         # the walk must also follow the fix-up of a zero-page parent within the same turn of the loop
         fix = [x for x in lib.stores_to_field(rf, "page", "Bookmark")]
         heads = list(rf.loops().keys())
         okw = okw and bool(fix) and all(rf.can_reach(x[0], full[0].bb, avoid=heads) for x in fix)
+    # ... and the page a zero-page parent has just been given is the page the first-page pass reports for it: the local that is
+    # tested and returned afterwards is assigned the same value as the bookmark (or the pass moves on to the next sibling as if the
+    # parent still had no page, and the grandparent gets the wrong page or none)
+    oku, whyu = False, "no fix-up store found"
+    fixs = lib.stores_to_field(rf, "page", "Bookmark")
+    rets = set()
+    for bi_, si_, st_ in rf.stmts():
+        if "lhs" in st_ and st_["lhs"]["l"] == 0 and not st_["lhs"]["p"] and st_["rv"]["k"] == "use" and op_place(st_["rv"]["o"]) is not None:
+            o_ = lib.origin_local(F, rf, st_["rv"]["o"])
+            if o_ is not None and o_[0] is rf and not o_[2]:
+                rets.add(o_[1])
+    for x in fixs:
+        if x[1] == "T":
+            continue
+        v_ = x[2]["rv"]["o"] if x[2]["rv"]["k"] == "use" else None
+        ov = lib.origin_local(F, rf, v_) if v_ is not None else None
+        whyu = "the value stored into Bookmark.page at line %d is not also assigned to the page the pass goes on with" % x[2]["ln"]
+        if ov is None:
+            continue
+        for l_ in rets:
+            for d_ in rf.defs.get(l_, []):
+                if d_[2] == "rv" and d_[3]["k"] == "use" and op_place(d_[3]["o"]) is not None:
+                    od = lib.origin_local(F, rf, d_[3]["o"])
+                    if od is not None and od[1] == ov[1] and not od[2] and (d_[0] == x[0] or rf.can_reach(x[0], d_[0]) or rf.can_reach(d_[0], x[0])):
+                        oku = True
+        if ov[1] in rets:
+            oku = True
+    ctx.ob("R-ORDER", "zero-page-fixup-updates-the-answer", oku, "the page given to a zero-page parent is also the page the pass tests and returns for it", rf.where(),
+           what="recursive_fix_pages: %s — after a zero-page parent was given its first child's page, the first-page pass still sees (0, 0) for it and goes on to the next sibling: "
+                "a grandparent gets the page of a later sibling, or none (and drops out of the table of contents)" % whyu)
     ctx.ob("R-ORDER", "zero-page-fixup-walks-all-children", okw, "in the top-level pass every non-empty child list is walked, whatever the item's own page is", rf.where(),
            what="adjust_zero_pages' top-level walk into an item's children is now conditional on the item's page state: nested zero-page parents to the right of the first paged child keep page (0, 0) and drop out of the table of contents")
     # only a bookmark WITHOUT a page of its own is given one: every store to Bookmark.page is dominated by `page.0 == 0`
